@@ -503,6 +503,16 @@ func evalImage(c *core.Ctx, r *core.Result, base string, ii int, im *image, hist
 			}
 		}
 	}
+	// a number saved again after the crash (the counter had not advanced) must answer with its new bytes last,
+	// also when the range asked for ends exactly at that number
+	if len(extra) > 0 {
+		first := cur.Sender - len(extra)
+		one, err := st.GetMessages(first, first)
+		if err != nil || len(one) == 0 || !bytes.Equal(one[len(one)-1], extra[0]) {
+			fail("later-messages/exact-range", fmt.Sprintf("GetMessages(%d,%d) after re-saving number %d returns %d message(s) (%v), the bytes saved last are not among them", first, first, first, len(one), err))
+			return
+		}
+	}
 	if st.NextSenderMsgSeqNum() != cur.Sender || st.NextTargetMsgSeqNum() != cur.Target {
 		fail("later-counters", fmt.Sprintf("after further operations counters are %d/%d, expected %d/%d", st.NextSenderMsgSeqNum(), st.NextTargetMsgSeqNum(), cur.Sender, cur.Target))
 		return
@@ -512,23 +522,32 @@ func evalImage(c *core.Ctx, r *core.Result, base string, ii int, im *image, hist
 		fail("later-messages-unreadable", "GetMessages after further operations failed: "+trimPath(err.Error()))
 		return
 	}
-	// expected: the recovered messages, then the new ones; a recovered message under a re-saved number may
-	// remain next to its new version (see assumptions)
-	wantAll := append(append([][]byte{}, recovered...), extra...)
+	// expected: one message per number in ascending order — the recovered ones under their numbers, each number
+	// saved again after the crash answering with the bytes saved last
+	byNum := map[int][]byte{}
+	recModel := im.after
+	if same(recovered, listOf(im.before)) {
+		recModel = im.before
+	}
+	if len(recovered) > 0 {
+		for n, b := range recModel.Msgs {
+			byNum[n] = b
+		}
+	}
+	for i, b := range extra {
+		byNum[cur.Sender-len(extra)+i] = b
+	}
+	var nums []int
+	for n := range byNum {
+		nums = append(nums, n)
+	}
+	sort.Ints(nums)
+	var wantAll [][]byte
+	for _, n := range nums {
+		wantAll = append(wantAll, byNum[n])
+	}
 	if !same(got, wantAll) {
-		// accept the documented special case: old versions of re-saved numbers dropped or kept
-		okSpecial := false
-		if len(got) >= len(extra) && same(got[len(got)-len(extra):], extra) {
-			okSpecial = true
-			for _, g := range got[:len(got)-len(extra)] {
-				if !have[string(g)] {
-					okSpecial = false
-				}
-			}
-		}
-		if !okSpecial {
-			fail("later-messages", fmt.Sprintf("after further operations GetMessages returned %d messages, expected the %d recovered followed by the %d new ones", len(got), len(recovered), len(extra)))
-		}
+		fail("later-messages", fmt.Sprintf("after further operations GetMessages returned %d messages, expected %d (one per number: the %d recovered, %d saved since, the later save winning where a number was saved again)", len(got), len(wantAll), len(recovered), len(extra)))
 	}
 }
 
